@@ -88,7 +88,7 @@ extern "C" void h_attr_write_redeclared()
     a->_redefAttr = r; a->_derive = in_derived_flag != 0; a->aDesc = ad; a->ptr.p = 0;
     r->_redefAttr = 0; r->_derive = false; r->aDesc = rd; r->ptr.i = &iv;
     g_value_null = 0; g_writer = W_NONE; g_writer_calls = g_err_calls = 0;
-    ostream out; out._m_written = 0;
+    ostream out; out._m_written = 0; out._m_logc[0] = 0; out._m_logt[0][0] = 0;      /* numbers are counted, not logged: the first log slot stays as initialised here */
     a->STEPattribute::STEPwrite(out, "sch");
     __CPROVER_assert(out._m_written == 1 && !(out._m_logc[0] == 'S' && out._m_logt[0][0] == '*'), "C01 the value of an attribute redeclared by a subtype is written (from the redeclaring attribute, where the reader stored it), not replaced by *");
     __CPROVER_assert(a->STEPattribute::is_null() == false, "the null test follows the redeclaring attribute");
